@@ -178,42 +178,38 @@ def signature(op, depth=2):
 
 # ------------------------------------------------------------------------------------------ shape classes
 
-def elementwise_rhs_shapes(B, m, n, reduced=False):
+def elementwise_rhs_shapes(B, m, n):
     """(shape class, right-operand shape) for  A(B, m, n) (+|-|*) R ;  torch's verdict on the dense pair is the oracle"""
     out = [("bigger", B + [m + 1, n + 1])]
     if min(m, n) >= 3:
         out.append(("smaller", B + [m - 1, n - 1]))
-    if not reduced:
-        if m != n:
-            out.append(("transposed", B + [n, m]))
-        out.append(("extra_dim_bigger", [2] + B + [m + 1, n + 1]))
-        if B:
-            out.append(("missing_dim_bigger", B[1:] + [m + 1, n + 1]))
+    if m != n:
+        out.append(("transposed", B + [n, m]))
+    out.append(("extra_dim_bigger", [2] + B + [m + 1, n + 1]))
+    if B:
+        out.append(("missing_dim_bigger", B[1:] + [m + 1, n + 1]))
     if B and B[0] != 1:
         out.append(("bad_batch", [B[0] + 3] + B[1:] + [m, n]))
     out.append(("ok_same", B + [m, n]))
-    if not reduced:
-        out.append(("ok_missing_batch", B[1:] + [m, n]) if B else ("ok_extra_batch", [2, m, n]))
+    out.append(("ok_missing_batch", B[1:] + [m, n]) if B else ("ok_extra_batch", [2, m, n]))
     return out
 
 
-def matmul_rhs_shapes(B, m, n, reduced=False):
+def matmul_rhs_shapes(B, m, n):
     """A(B, m, n) @ R(.., k, p)"""
     out = [("wrong_inner", B + [n + 1, n + 1])]
-    if not reduced:
-        if n != 1:
-            out.append(("size1_inner", B + [1, 1]))
-        if n >= 3:
-            out.append(("smaller_inner", B + [n - 1, n - 1]))
-        if m != n:
-            out.append(("transposed_inner", B + [m, n]))
-        out.append(("wrong_inner_rect", B + [n + 1, 2]))
-        if B and B[0] != 1:
-            out.append(("bad_batch", [B[0] + 3] + B[1:] + [n, n]))
-        out.append(("extra_batch_wrong_inner", [2] + B + [n + 1, n + 1]))
+    if n != 1:
+        out.append(("size1_inner", B + [1, 1]))
+    if n >= 3:
+        out.append(("smaller_inner", B + [n - 1, n - 1]))
+    if m != n:
+        out.append(("transposed_inner", B + [m, n]))
+    out.append(("wrong_inner_rect", B + [n + 1, 2]))
+    if B and B[0] != 1:
+        out.append(("bad_batch", [B[0] + 3] + B[1:] + [n, n]))
+    out.append(("extra_batch_wrong_inner", [2] + B + [n + 1, n + 1]))
     out.append(("ok_square", B + [n, n]))
-    if not reduced:
-        out.append(("ok_rect", B + [n, 2]))
+    out.append(("ok_rect", B + [n, 2]))
     return out
 
 
@@ -222,38 +218,58 @@ def cat_rhs_shapes(B, m, n):
             ("ok", -2, B + [n, n]) if m == n else ("ok", -2, B + [2, n]), ("ok", -1, B + [m, m])]
 
 
+# which shape classes each operation gets, per tier / kind of left operand.  `+` always gets every class (every
+# class-specific __add__ override has its own guard); `-` is the base-class `self + other.mul(-1)` and `*` / `@` pass the
+# base-class guard before any class-specific code except in the overrides, which the direct left operands cover in full.
+ELEMENTWISE_KINDS = {
+    "full": {"add_op": None, "sub_op": None, "mul_op": None, "torch": ("bigger", "bad_batch", "ok_same")},
+    "quick": {"add_op": None, "sub_op": ("bigger", "smaller", "bad_batch", "transposed", "ok_same"),
+              "mul_op": ("bigger", "smaller", "bad_batch", "transposed", "ok_same"), "torch": ("bigger",)},
+    "derived": {"add_op": ("bigger", "smaller", "bad_batch", "extra_dim_bigger", "ok_same"),
+                "sub_op": ("bigger", "bad_batch", "ok_same"), "mul_op": ("bigger", "ok_same"), "torch": ()},
+}
+MATMUL_KINDS = {
+    "full": {"matmul_op": None, "torch": ("wrong_inner", "ok_square")},
+    "quick": {"matmul_op": ("wrong_inner", "size1_inner", "transposed_inner", "bad_batch", "extra_batch_wrong_inner",
+                            "ok_square"), "torch": ("wrong_inner",)},
+    "derived": {"matmul_op": ("wrong_inner", "ok_square"), "torch": ()},
+}
 BIN_OPS = ("add_op", "sub_op", "mul_op")
 
 
-def pair_cases(sh, seed, rhs_classes, reduced=False, with_cat=True):
-    """declarative cases: dict(op, kind, arg={"rhs": expr, "rhs_cls": constructor class})"""
+def pair_cases(sh, seed, rhs_classes, level="full"):
+    """declarative cases: dict(op, kind, arg={"rhs": expr, "rhs_cls": constructor class}); level = full | quick | derived"""
     B, m, n = sh[:-2], sh[-2], sh[-1]
+    ek, mk = ELEMENTWISE_KINDS[level], MATMUL_KINDS[level]
+
+    def wanted(table, o, kind):
+        return table[o] is None or kind in table[o]
     cs = []
     for rc in rhs_classes:
-        for kind, s in elementwise_rhs_shapes(B, m, n, reduced):
+        for kind, s in elementwise_rhs_shapes(B, m, n):
             e = rhs_expr(rc, s[:-2], s[-2], s[-1], seed)
             if e is None:
                 continue
             for o in BIN_OPS:
-                if reduced and o == "mul_op" and kind not in ("bigger", "ok_same"):
-                    continue
-                cs.append({"op": o, "kind": kind, "arg": {"rhs": e, "rhs_cls": rc}})
-            if kind in ("bigger", "bad_batch", "ok_same") and not reduced:
+                if wanted(ek, o, kind):
+                    cs.append({"op": o, "kind": kind, "arg": {"rhs": e, "rhs_cls": rc}})
+            if kind in ek["torch"] and (level == "full" or not B):
                 for o in ("torch_add", "torch_sub", "torch_mul"):
                     cs.append({"op": o, "kind": kind, "arg": {"rhs": e, "rhs_cls": rc}})
-        for kind, s in matmul_rhs_shapes(B, m, n, reduced):
+        for kind, s in matmul_rhs_shapes(B, m, n):
             e = rhs_expr(rc, s[:-2], s[-2], s[-1], seed)
             if e is None:
                 continue
-            cs.append({"op": "matmul_op", "kind": kind, "arg": {"rhs": e, "rhs_cls": rc}})
-            if kind in ("wrong_inner", "ok_square") and not reduced:
+            if wanted(mk, "matmul_op", kind):
+                cs.append({"op": "matmul_op", "kind": kind, "arg": {"rhs": e, "rhs_cls": rc}})
+            if kind in mk["torch"] and (level == "full" or not B):
                 cs.append({"op": "torch_matmul", "kind": kind, "arg": {"rhs": e, "rhs_cls": rc}})
-        if with_cat and not reduced and not B:
-            for kind, dim, s in cat_rhs_shapes(B, m, n):
+        if level != "derived" and not B:
+            for k_, (kind, dim, s) in enumerate(cat_rhs_shapes(B, m, n)):
                 e = rhs_expr(rc, s[:-2], s[-2], s[-1], seed)
                 if e is None:
                     continue
-                for pos in (0, 1):
+                for pos in ((0, 1) if level == "full" else (k_ % 2,)):
                     cs.append({"op": "cat_op", "kind": "%s_dim%d_pos%d" % (kind, dim, pos),
                                "arg": {"rhs": e, "rhs_cls": rc, "dim": dim, "pos": pos}})
     return cs
@@ -298,16 +314,41 @@ def reflected_cases(sh, rng):
 
 # ------------------------------------------------------------------------------------------ execution
 
+_DENSE_CACHE = {}
+
+
+def _dense_of(e):
+    """dense value of a right-operand expression (cached per expression object: they are shared between cases)"""
+    from . import opbuild as ob
+    k = id(e)
+    hit = _DENSE_CACHE.get(k)
+    if hit is None or hit[0] is not e:
+        hit = (e, ob.dense(e))
+        _DENSE_CACHE[k] = hit
+    return hit[1]
+
+
+def attempt_shape(f):
+    """verdict of a call by the shape its result ADVERTISES (no dense evaluation): a lazily constructed operator whose
+    .shape cannot be read counts as raising; one that advertises a shape is a returned result (the stated convention)"""
+    try:
+        r = f()
+        if isinstance(r, tuple):
+            r = r[0]
+        return ("ok", [int(x) for x in r.shape])
+    except Exception as ex:                      # noqa: any exception is "raises"
+        return ("raise", (type(ex).__name__ + ": " + str(ex))[:90])
+
 def execute_pair(op, D, case, attempt):
-    """-> (impl verdict, torch verdict, runtime class of the right operand)"""
+    """-> (impl verdict, torch verdict, (runtime class of the right operand, the right operand))"""
     import torch
     from . import opbuild as ob
     from linear_operator.operators import cat as lo_cat
     o, arg = case["op"], case["arg"]
     if "rhs" in arg:
         R = ob.build(arg["rhs"])
-        DR = ob.dense(arg["rhs"])
-        rcls = type(R).__name__
+        DR = _dense_of(arg["rhs"])
+        rcls = (type(R).__name__, R)
         if o == "add_op":
             return attempt(lambda: op + R), attempt(lambda: D + DR), rcls
         if o == "sub_op":
@@ -332,29 +373,29 @@ def execute_pair(op, D, case, attempt):
         raise ValueError(o)
     X = ob.tt(arg)
     if o == "radd":
-        return attempt(lambda: X + op), attempt(lambda: X + D), "Tensor"
+        return attempt(lambda: X + op), attempt(lambda: X + D), ("Tensor", None)
     if o == "rsub":
-        return attempt(lambda: X - op), attempt(lambda: X - D), "Tensor"
+        return attempt(lambda: X - op), attempt(lambda: X - D), ("Tensor", None)
     if o == "rmul":
-        return attempt(lambda: X * op), attempt(lambda: X * D), "Tensor"
+        return attempt(lambda: X * op), attempt(lambda: X * D), ("Tensor", None)
     if o == "rmatmul_dunder":
-        return attempt(lambda: X @ op), attempt(lambda: X @ D), "Tensor"
+        return attempt(lambda: X @ op), attempt(lambda: X @ D), ("Tensor", None)
     if o == "torch_add_t":
-        return attempt(lambda: torch.add(op, X)), attempt(lambda: D + X), "Tensor"
+        return attempt(lambda: torch.add(op, X)), attempt(lambda: D + X), ("Tensor", None)
     if o == "torch_sub_t":
-        return attempt(lambda: torch.sub(op, X)), attempt(lambda: D - X), "Tensor"
+        return attempt(lambda: torch.sub(op, X)), attempt(lambda: D - X), ("Tensor", None)
     if o == "torch_mul_t":
-        return attempt(lambda: torch.mul(op, X)), attempt(lambda: D * X), "Tensor"
+        return attempt(lambda: torch.mul(op, X)), attempt(lambda: D * X), ("Tensor", None)
     if o == "torch_add_rt":
-        return attempt(lambda: torch.add(X, op)), attempt(lambda: X + D), "Tensor"
+        return attempt(lambda: torch.add(X, op)), attempt(lambda: X + D), ("Tensor", None)
     if o == "torch_sub_rt":
-        return attempt(lambda: torch.sub(X, op)), attempt(lambda: X - D), "Tensor"
+        return attempt(lambda: torch.sub(X, op)), attempt(lambda: X - D), ("Tensor", None)
     if o == "torch_mul_rt":
-        return attempt(lambda: torch.mul(X, op)), attempt(lambda: X * D), "Tensor"
+        return attempt(lambda: torch.mul(X, op)), attempt(lambda: X * D), ("Tensor", None)
     if o == "torch_matmul_rt":
-        return attempt(lambda: torch.matmul(X, op)), attempt(lambda: X @ D), "Tensor"
+        return attempt(lambda: torch.matmul(X, op)), attempt(lambda: X @ D), ("Tensor", None)
     if o == "add_low_rank":
-        return attempt(lambda: op.add_low_rank(X)), attempt(lambda: D + X @ X.mT), "Tensor"
+        return attempt(lambda: op.add_low_rank(X)), attempt(lambda: D + X @ X.mT), ("Tensor", None)
     raise ValueError(o)
 
 
